@@ -187,3 +187,55 @@ def rule_gauge_order_binding(ctx):
                 r.ok(construct, sample={"function": f.qualname, "ordering parameter": p, "gauge combination": f"line {first}", "later structural uses": len(later_uses)})
     r.floor(n, 1, "gauge combinations ordered by a sequence parameter")
     return r
+
+
+def rule_where_sorted_with_operator(ctx):
+    r = RuleResult(
+        "where-sorted-with-operator",
+        "in the local-expectation code the sites of a term and its operator travel together: the k-th factor of G acts on the k-th site of "
+        "`where`. A site tuple that is re-bound to its sorted self (`where = tuple(sorted(where))`) and then handed on together with the "
+        "unpermuted operator — passed to a gate / expectation call, or stored next to G — silently exchanges the factors for every term given "
+        "in descending order",
+    )
+    n = 0
+    for f in ctx.prog.all_functions(nested=False):
+        if f.is_alias or isinstance(f.node, ast.Lambda) or f.module.name not in MODULES:
+            continue
+        # site tuples: loop targets over <terms>.items()  (for where, G in terms.items())  and site parameters
+        pairs = []
+        for lp in _own_walk(f.node):
+            if isinstance(lp, ast.For) and isinstance(lp.target, ast.Tuple) and len(lp.target.elts) == 2 and all(isinstance(e, ast.Name) for e in lp.target.elts) \
+                    and isinstance(lp.iter, ast.Call) and isinstance(lp.iter.func, ast.Attribute) and lp.iter.func.attr == "items":
+                pairs.append((lp.target.elts[0].id, lp.target.elts[1].id, lp))
+        if not pairs:
+            continue
+        n += 1
+        for wname, gname, lp in pairs:
+            for a in ast.walk(lp):
+                if not (isinstance(a, ast.Assign) and any(isinstance(t, ast.Name) and t.id == wname for t in a.targets)):
+                    continue
+                srt = [c for c in ast.walk(a.value) if isinstance(c, ast.Call) and isinstance(c.func, ast.Name) and c.func.id == "sorted"
+                       and any(isinstance(y, ast.Name) and y.id == wname for y in ast.walk(c))]
+                if not srt:
+                    continue
+                # later uses together with the operator
+                together = None
+                for x in ast.walk(lp):
+                    if getattr(x, "lineno", 0) <= a.lineno:
+                        continue
+                    if isinstance(x, ast.Call):
+                        argn = {y.id for arg in list(x.args) + [k.value for k in x.keywords] for y in ast.walk(arg) if isinstance(y, ast.Name)}
+                        if {wname, gname} <= argn:
+                            together = x
+                            break
+                    if isinstance(x, ast.Tuple) and {wname, gname} <= {y.id for y in ast.walk(x) if isinstance(y, ast.Name)}:
+                        together = x
+                        break
+                if together is not None:
+                    r.bad(Finding("where-sorted-with-operator", f.qualname,
+                                  f"`{src_of(a)[:50]}` (line {a.lineno}) sorts the sites of a term and `{src_of(together)[:40]}` (line {together.lineno}) hands them on with the unpermuted operator `{gname}`: "
+                                  "for a pair given in descending order the operator's factors land on exchanged sites", where=f"{f.module.relpath}:{a.lineno}", operand=f"{wname}:{gname}"))
+        if not any(fd.construct == f.qualname for fd in r.findings):
+            r.ok(f.qualname, sample={"function": f.qualname, "term loops": [f"{w}, {g}" for w, g, _ in pairs]}, nontrivial=False)
+    r.floor(n, 5, "loops over (sites, operator) terms in the local-expectation modules")
+    return r
